@@ -26,3 +26,147 @@ Qed.
 
 Lemma run_vm_binary_unary : forall p ch cmds, run_vm p ch cmds = run_vm_n (Pos.to_nat p) ch cmds.
 Proof. intros. unfold run_vm, run_vm_n. now rewrite vm_run_p_n. Qed.
+
+(* ================================================================================================================ *)
+(* Scaling: the VM run on the transformed commands is the scaled VM run (for all command lists, incl. loops) *)
+From Coq Require Import Setoid Morphisms Field Lra.
+Open Scope Q_scope.
+
+Definition reg_rel (tr : list (Q * Q)) (a b : (nat * key) * Q) : Prop :=
+  fst a = fst b /\ snd b == scale_of tr (fst (fst a)) (snd a).
+Definition vm_rel (tr : list (Q * Q)) (s s' : vm) : Prop :=
+  cur_rel tr 0 (v_cur s) (v_cur s') /\ v_time s = v_time s' /\ Forall2 (reg_rel tr) (v_regs s) (v_regs s') /\
+  Forall2 (hist_rel tr) (v_hist s) (v_hist s') /\ v_counts s = v_counts s' /\ v_pc s = v_pc s'.
+
+Definition step_rel (tr : list (Q * Q)) (a b : stepres) : Prop :=
+  match a, b with
+  | Running x, Running y => vm_rel tr x y
+  | Halted x, Halted y => vm_rel tr x y
+  | Crashed e, Crashed e' => e = e'
+  | _, _ => False
+  end.
+
+Lemma transform_nth : forall tr cs cs' n, transform tr cs = Ok cs' ->
+  match nth_error cs n with
+  | Some c => exists c', transform_cmd tr c = Ok c' /\ nth_error cs' n = Some c'
+  | None => nth_error cs' n = None
+  end.
+Proof.
+  induction cs as [|c cs IH]; intros cs' n H; cbn in H.
+  - inversion H; subst. destruct n; reflexivity.
+  - destruct (transform_cmd tr c) as [c'|] eqn:E; cbn in H; [|discriminate].
+    destruct (transform tr cs) as [r|] eqn:E2; cbn in H; [|discriminate]. inversion H; subst.
+    destruct n; cbn; [eauto|]. apply IH; reflexivity.
+Qed.
+
+Lemma transform_label_target : forall tr cs cs' idx p, transform tr cs = Ok cs' ->
+  label_target cs' idx p = label_target cs idx p.
+Proof.
+  induction cs as [|c cs IH]; intros cs' idx p H; cbn in H.
+  - inversion H; reflexivity.
+  - destruct (transform_cmd tr c) as [c'|] eqn:E; cbn in H; [|discriminate].
+    destruct (transform tr cs) as [r|] eqn:E2; cbn in H; [|discriminate]. inversion H; subst.
+    destruct c; cbn in E.
+    + destruct (nth_error tr ch) as [[amp off]|]; [|discriminate]. destruct (Qeq_bool amp 0); inversion E; subst.
+      cbn. apply IH; reflexivity.
+    + destruct (nth_error tr ch) as [[amp off]|]; [|discriminate]. destruct (Qeq_bool amp 0); inversion E; subst.
+      cbn. apply IH; reflexivity.
+    + inversion E; subst. cbn. apply IH; reflexivity.
+    + inversion E; subst. cbn. destruct (idx0 =? idx)%Z; [reflexivity|]. apply IH; reflexivity.
+    + inversion E; subst. cbn. apply IH; reflexivity.
+Qed.
+
+Lemma set_nth_rel : forall tr ch i l l' v v', cur_rel tr i l l' -> v' == scale_of tr (i + ch) v ->
+  match set_nth ch (Some v) l, set_nth ch (Some v') l' with
+  | Some r, Some r' => cur_rel tr i r r'
+  | None, None => True
+  | _, _ => False
+  end.
+Proof.
+  induction ch as [|ch IH]; intros i l l' v v' R Hv; destruct R as [|i a b l l' Hab R]; cbn; auto.
+  - constructor; auto. cbn. now rewrite Nat.add_0_r in Hv.
+  - specialize (IH (S i) l l' v v' R). rewrite <- plus_n_Sm in Hv. specialize (IH Hv).
+    destruct (set_nth ch (Some v) l), (set_nth ch (Some v') l'); try contradiction; auto.
+    constructor; auto.
+Qed.
+
+Lemma alookup_rel : forall tr k regs regs', Forall2 (reg_rel tr) regs regs' ->
+  match alookup ck_eqb k regs, alookup ck_eqb k regs' with
+  | Some v, Some v' => v' == scale_of tr (fst k) v
+  | None, None => True
+  | _, _ => False
+  end.
+Proof.
+  intros tr k regs regs' R. induction R as [|[k1 v1] [k2 v2] l l' [Hk Hv] R IH]; cbn; auto.
+  cbn in Hk, Hv. subst k2. destruct (ck_eqb k k1) eqn:E; auto.
+  unfold ck_eqb in E. apply andb_prop in E as [E1 _]. apply Nat.eqb_eq in E1. now rewrite E1.
+Qed.
+
+Lemma aset_rel : forall tr k v v' regs regs', Forall2 (reg_rel tr) regs regs' -> v' == scale_of tr (fst k) v ->
+  Forall2 (reg_rel tr) (aset ck_eqb k v regs) (aset ck_eqb k v' regs').
+Proof.
+  intros tr k v v' regs regs' R Hv. induction R as [|[k1 v1] [k2 v2] l l' [Hk Hv'] R IH]; cbn.
+  - constructor; [|constructor]. split; auto.
+  - cbn in Hk. subst k2. destruct (ck_eqb k k1); constructor; auto; split; auto.
+Qed.
+
+Lemma vm_step_rel : forall tr cs cs' s s',
+  transform tr cs = Ok cs' -> vm_rel tr s s' -> step_rel tr (vm_step cs s) (vm_step cs' s').
+Proof.
+  intros tr cs cs' s s' HT (Hcur & Htime & Hregs & Hhist & Hcnt & Hpc).
+  unfold vm_step. rewrite <- Hpc. pose proof (transform_nth tr cs cs' (v_pc s) HT) as Hn.
+  destruct (nth_error cs (v_pc s)) as [c|].
+  2:{ rewrite Hn. cbn. repeat split; auto. }
+  destruct Hn as (c' & Hc & ->). rewrite <- Hcnt, <- Htime.
+  destruct c; cbn in Hc.
+  - (* Set *)
+    destruct (nth_error tr ch) as [[amp off]|] eqn:En; [|discriminate].
+    destruct (Qeq_bool amp 0) eqn:Ea; inversion Hc; subst; clear Hc.
+    assert (Hv : (v - off) / amp == scale_of tr (0 + ch) v) by (unfold scale_of; cbn; rewrite En; reflexivity).
+    pose proof (set_nth_rel tr ch 0 _ _ v ((v - off) / amp) Hcur Hv) as Hs.
+    destruct (set_nth ch (Some v) (v_cur s)), (set_nth ch (Some ((v - off) / amp)) (v_cur s')); try contradiction; cbn; auto.
+    repeat split; auto. apply aset_rel; auto.
+  - (* Inc *)
+    destruct (nth_error tr ch) as [[amp off]|] eqn:En; [|discriminate].
+    destruct (Qeq_bool amp 0) eqn:Ea; inversion Hc; subst; clear Hc.
+    pose proof (alookup_rel tr (ch, k) _ _ Hregs) as Hl.
+    destruct (alookup ck_eqb (ch, k) (v_regs s)) as [old|], (alookup ck_eqb (ch, k) (v_regs s')) as [old'|];
+      try contradiction; cbn; auto.
+    cbn in Hl.
+    assert (Hv : old' + v / amp == scale_of tr (0 + ch) (old + v)).
+    { rewrite Hl. unfold scale_of; cbn. rewrite En. apply Qeq_bool_neq in Ea. field. exact Ea. }
+    pose proof (set_nth_rel tr ch 0 _ _ (old + v) (old' + v / amp) Hcur Hv) as Hs.
+    destruct (set_nth ch (Some (old + v)) (v_cur s)), (set_nth ch (Some (old' + v / amp)) (v_cur s')); try contradiction; cbn; auto.
+    repeat split; auto. apply aset_rel; auto.
+  - inversion Hc; subst. cbn. repeat split; auto. constructor; auto. split; auto.
+  - inversion Hc; subst. cbn. repeat split; auto.
+  - inversion Hc; subst. destruct (alookup Z.eqb idx (v_counts s)) as [n|]; cbn; auto.
+    destruct (0 <? n)%Z; cbn; [|repeat split; auto].
+    rewrite (transform_label_target tr cs cs' idx 0%nat HT).
+    destruct (label_target cs idx 0); cbn; auto. repeat split; auto.
+Qed.
+
+Lemma vm_run_n_rel : forall tr cs cs' fuel s s',
+  transform tr cs = Ok cs' -> vm_rel tr s s' -> step_rel tr (vm_run_n fuel cs s) (vm_run_n fuel cs' s').
+Proof.
+  induction fuel as [|f IH]; intros s s' HT R; cbn; auto.
+  pose proof (vm_step_rel tr cs cs' s s' HT R) as H.
+  destruct (vm_step cs s), (vm_step cs' s'); cbn in H; try contradiction; auto.
+Qed.
+
+Lemma Forall2_rev' {A B} (R : A -> B -> Prop) : forall l l', Forall2 R l l' -> Forall2 R (rev l) (rev l').
+Proof. induction 1; cbn; [constructor|]. apply Forall2_app; auto. Qed.
+
+Lemma cur_rel_repeat_none : forall tr n i, cur_rel tr i (repeat None n) (repeat None n).
+Proof. induction n; intros; cbn; constructor; cbn; auto. Qed.
+
+Lemma run_vm_scaled : forall tr cs cs' fuel ch,
+  transform tr cs = Ok cs' -> outcome_scaled tr (run_vm_n fuel ch cs) (run_vm_n fuel ch cs').
+Proof.
+  intros tr cs cs' fuel ch HT. unfold run_vm_n.
+  assert (R0 : vm_rel tr (vm0 ch) (vm0 ch)).
+  { unfold vm0, vm_rel; cbn. repeat split; auto. apply cur_rel_repeat_none. }
+  pose proof (vm_run_n_rel tr cs cs' fuel _ _ HT R0) as H.
+  destruct (vm_run_n fuel cs (vm0 ch)), (vm_run_n fuel cs' (vm0 ch)); cbn in H; try contradiction; cbn; auto.
+  destruct H as (_ & Ht & _ & Hh & _). split; auto. apply Forall2_rev'. exact Hh.
+Qed.
